@@ -94,7 +94,7 @@ def token_bases(cases, n):
     return out
 
 
-def token_inputs(ctx, cases, wd, n, n_ins=0):
+def token_inputs(ctx, cases, wd, n, n_ins=0, extra=()):
     """[(tag, path, expect, mutant, schema case)] - every single-token mutant (spec/TokMut.tla) of n schemas of the
     family.  expect is "valid" for the re-spaced original, "fault" for an undeclared name at a using position and
     "any" otherwise (the verdict is not prescribed, everything else is).  The first n_ins schemas also get every
@@ -102,8 +102,11 @@ def token_inputs(ctx, cases, wd, n, n_ins=0):
     from vf import tokmut
     ind = mkdir(os.path.join(wd, "in"))
     out = []
-    for b, c in enumerate(token_bases(cases, n)):
-        for k, m in enumerate(tokmut.mutants(express.render(c["schema"]), ctx.work, with_ins=b < n_ins)):
+    bases = [(c, express.render(c["schema"])) for c in token_bases(cases, n)]
+    # texts outside the family (extra: [(name, text)]): constructs the family does not have
+    bases += [({"choice": {"host": name}, "schema": None, "mutants": []}, text) for name, text in extra]
+    for b, (c, text) in enumerate(bases):
+        for k, m in enumerate(tokmut.mutants(text, ctx.work, with_ins=b < n_ins)):
             p = os.path.join(ind, "k%d_%d.exp" % (b, k))
             open(p, "w", encoding="latin-1").write(m["text"])
             mm = {"class": "tok_" + m["op"], "at": "", "pos": "[%s]@%s" % (m["tok"], m["ctx"]), "lexeme": "", "code": "", "stretch": 0}
